@@ -188,6 +188,13 @@ func (o *Obs) SubtreeJSON(prefix []PathElem) (map[string]interface{}, error) {
 					lp := append(append([]PathElem(nil), prefix...), rel[:i+1]...)
 					lp[len(lp)-1] = PathElem{Name: e.Name, Pos: -1}
 					ent = map[string]interface{}{"\x00id": id, "\x00lp": PathString(lp)}
+					// the key leaves are members of the entry itself (also for OpenConfig-style
+					// lists, whose keys are leafrefs to config/<key>)
+					for kn, kv := range e.Keys {
+						if jv, err := ScalarJSON(kv); err == nil {
+							ent[kn] = jv
+						}
+					}
 					cur[e.Name] = append(arr, ent)
 				}
 				cur = ent
